@@ -238,6 +238,20 @@ func c17Sequence(run *evid.Run, cfg Cfg, c *rig.Cluster, ids []uint64, k int) {
 			}
 		}
 	}
+	if r.Intn(5) == 0 {
+		// A complete generation first (the way a coordinator drives it), so that the events that follow meet
+		// the "after a successful commit" part of the lifecycle.
+		t := uint32(2 + r.Intn(2))
+		for _, id := range ids {
+			prepare(id, accounts[0], t)
+		}
+		for _, id := range ids {
+			simple("execute", id, accounts[0])
+		}
+		for _, id := range ids {
+			simple("commit", id, accounts[0])
+		}
+	}
 	sleeps := 0
 	steps := 6 + r.Intn(15)
 	for i := 0; i < steps && run.NumViolations() <= 5; i++ {
